@@ -373,7 +373,7 @@ show(X) :- write(X), nl.
 """
 
 
-def replay_index_keys(which, model):
+def replay_index_keys(which, model, prop="C06"):
     """fit: small integers that reach the call as bignum cells must still select their clause;
     big: integers outside the fixnum range built at run time must select the clause holding the
     same value as a literal"""
@@ -395,7 +395,7 @@ def replay_index_keys(which, model):
                  ("Y is -(2^55) + 1, findall(T, edge(Y, T), L), show(L)", "[next]")]
     else:
         cases = [("Z is 2^55, ( big(Z) -> show(yes) ; show(no) )", "yes")]
-    return run_cases(IDX_PROGRAM, cases, {"model": model, "class": which}, "C06",
+    return run_cases(IDX_PROGRAM, cases, {"model": model, "class": which}, prop,
                      "index_keys_" + which)
 
 
@@ -434,6 +434,12 @@ def replay_equal_integers(viol):
         ("Y is 2^60-2^60+2, length(L, Y), show(L)", "[_A,_B]"),
     ]
     cases[-1] = ("Y is 2^60-2^60+2, length(L, Y), length(L, N), show(N)", "2")
+    cases += [("Z is 2^64 - 2^64, S is sign(Z), show(S)", "0"),
+              ("Z is 2^64 - 2^64, E = sign(Z), S is E, show(S)", "0"),
+              ("Z is 2^64 - 2^64 + 5, S is sign(Z), show(S)", "1"),
+              ("Z is 2^64 - 2^64 - 5, S is sign(Z), show(S)", "-1"),
+              ("Z is 0 rdiv 7, S is sign(Z), show(S)", "0"),
+              ("Z is 2^64 - 2^64, S is abs(Z) + max(Z, 0) + min(Z, 0), show(S)", "0")]
     # builtins that take an integer argument: same outcome for the literal and for the same value
     # arriving in a bignum cell (differential: outcome = yes(Result) / no / err(E))
     templates = ["arg(N, f(a,b,c), T)", "functor(T, foo, N)", "length(T, N)", "length([a,b,c|_], N)",
@@ -450,7 +456,7 @@ def replay_equal_integers(viol):
         for v in (2, 0, -1):
             cases.append(("N = %d, r((%s), T, R1), showv(R1)" % (v, tpl), None))
             cases.append(("N is 2^60-2^60+(%d), r((%s), T, R2), showv(R2)" % (v, tpl), None))
-    rec = run_cases(EQI_PROGRAM, cases, {"model": viol}, "C05", "equal_integers", batch=True, pairs_from=15)
+    rec = run_cases(EQI_PROGRAM, cases, {"model": viol}, "C05", "equal_integers", batch=True, pairs_from=21)
     return rec
 
 
@@ -505,7 +511,7 @@ k("st", string).
 """
 
 
-def replay_index_routing(diffs):
+def replay_index_routing(diffs, prop="C06"):
     cases = [("findall(K, k(a, K), L), show(L)", "[atom]"),
              ("findall(K, k(1, K), L), show(L)", "[int]"),
              ("findall(K, k(2.5, K), L), show(L)", "[float]"),
@@ -519,7 +525,7 @@ def replay_index_routing(diffs):
              ("findall(K, k('.', K), L), show(L)", "[dotatom]"),
              ("findall(K, k(h(1), K), L), show(L)", "[]"),
              ("findall(K, k(_, K), L), length(L, N), show(N)", "10")]
-    return run_cases(IDX2_PROGRAM, cases, {"model": diffs}, "C06", "index_routing")
+    return run_cases(IDX2_PROGRAM, cases, {"model": diffs}, prop, "index_routing")
 
 
 # ---------------------------------------------------------------- C20 (suffix comparison)
@@ -1104,7 +1110,7 @@ t3 :- grow, atom_chars(P, "early_long_predicate_name"), G =.. [P, R], ( catch(G,
 
 
 # ---------------------------------------------------------------- C06 (clause look-ahead)
-def replay_lookahead(viol):
+def replay_lookahead(viol, prop="C06"):
     """predicates whose later clauses have list / string / structure / constant first arguments, called
     with the argument in every run-time representation: all matching clauses must be found"""
     prog = """
@@ -1112,6 +1118,9 @@ def replay_lookahead(viol):
 show(X) :- write(X), nl.
 s("abc",1). s("abd",2). s(foo,3). s("abd",4). s([a,b,d],5).
 u(_,0). u("abd",1). u([x|_],2). u(f(_),3). u(g(1),4). u(7,5).
+col(a,1,red). col(b,2,green). col(c,2,blue). col(d,36028797018963967,max).
+:- dynamic(stock/3).
+stock(a,1,red). stock(b,2,green). stock(c,2,blue).
 explode([], []).
 explode([C|Cs], [C|Ds]) :- explode(Cs, Ds).
 """
@@ -1128,5 +1137,10 @@ explode([C|Cs], [C|Ds]) :- explode(Cs, Ds).
              ("findall(R, u(g(1),R), Rs), show(Rs)", "[0,4]"),
              ("findall(R, u(g(2),R), Rs), show(Rs)", "[0]"),
              ("Y is 2^60-2^60+7, findall(R, u(Y,R), Rs), show(Rs)", "[0,5]"),
-             ("findall(R, u(_,R), Rs), show(Rs)", "[0,1,2,3,4,5]")]
-    return run_cases(prog, cases, {"model": viol}, "C06", "lookahead", batch=True)
+             ("findall(R, u(_,R), Rs), show(Rs)", "[0,1,2,3,4,5]"),
+             # a constant in a later argument, the first argument unbound: clauses are tried in turn
+             ("X is 2^60-2^60+2, findall(K-C, col(K,X,C), L), show(L)", "[b-green,c-blue]"),
+             ("findall(K-C, col(K,2,C), L), show(L)", "[b-green,c-blue]"),
+             ("X is 2^60-2^60+2, findall(K-C, stock(K,X,C), L), show(L)", "[b-green,c-blue]"),
+             ("X is 2^55-1, findall(K, col(K,X,_), L), show(L)", "[d]")]
+    return run_cases(prog, cases, {"model": viol}, prop, "lookahead", batch=True)
